@@ -221,14 +221,22 @@ def view_fns():
         def vmm(buf, i, j, seed):
             return mm3(buf[i:j], seed)
 
-        _VIEW_FNS = (v64, v32, vmm)
-    return _VIEW_FNS
+        try:
+            v64(b"abcdefgh-warm", 0, 8, np.uint64(1)), v32(b"abcdefgh-warm", 0, 8, np.uint64(1)), vmm(b"abcdefgh-warm", 0, 8, np.uint32(1))
+            _VIEW_FNS = (v64, v32, vmm)
+        except Exception:  # noqa: BLE001  (a tree whose public hashes are plain Python wrappers cannot be called from jitted code)
+            _VIEW_FNS = False
+    return _VIEW_FNS or None
 
 
 def run_kernel_views(case, ctx, mon):
     """All three public hashes called from jitted code on zero-copy views of a larger buffer (every start alignment, the
     byte after the view is never NUL): the result must be that of the same bytes as an ordinary bytes object."""
-    v64, v32, vmm = view_fns()
+    fns = view_fns()
+    if fns is None:
+        mon.count("kernel_view_cases_skipped(hashes_not_callable_from_jitted_code)")
+        return
+    v64, v32, vmm = fns
     buf = unhx(case["buf"])
     n = len(buf)
     bad = 0
@@ -280,6 +288,28 @@ def huge_keys(ctx, mon):
         mon.end_case()
 
 
+def run_on_the_fly(case, ctx, mon):
+    """Records built, hashed and dropped one after the other under one seed (the way a stream of documents is hashed): each
+    temporary key is freed before the next is created, so object addresses repeat while the contents differ."""
+    s = sk()
+    f64, f32, mm3 = s.hashes.fasthash64, s.hashes.fasthash32, s.hashes.murmur3
+    n, seed = case["len"], case["seed"]
+    rng = np.random.default_rng(case["stream"])
+    ids = set()
+    for i in range(case["count"]):
+        key = rng.bytes(n)
+        ids.add(id(key))
+        got = (int(f64(key, seed)), int(f32(key, seed)), int(mm3(key, seed & 0xFFFFFFFF)))
+        want = (hashes_ref.fasthash64(key, seed), hashes_ref.fasthash32(key, seed), hashes_ref.murmur3_32(key, seed & 0xFFFFFFFF))
+        for name, g, w in zip(("fasthash64", "fasthash32", "murmur3"), got, want):
+            mon.check(g == w, f"{name}==reference(temporary-keys-hashed-one-after-the-other)", length=n, seed=seed, i=i, got=g, want=w)
+        del key
+    mon.count("temporary_keys_hashed", case["count"])
+    if len(ids) < case["count"]:
+        mon.count("temporary_keys_that_reused_an_address", case["count"] - len(ids))
+    mon.nontrivial(True)
+
+
 def fixed_vectors(ctx, mon):
     s = sk()
     case = {"fixed": "published-vectors"}
@@ -296,6 +326,12 @@ DIGEST_SNIPPET = r"""
 import sys, hashlib
 import numpy as np
 from sketchnu.hashes import fasthash64, fasthash32, murmur3
+first = sys.argv[3] if len(sys.argv) > 3 else ""
+if first:
+    # the very first calls of this process pass the seed as a narrow NumPy scalar (whatever is specialised, cached or
+    # remembered on first use must not shape later calls)
+    t = getattr(np, first)
+    fasthash64(b"first", t(1)); fasthash32(b"first", t(1)); murmur3(b"first", t(1))
 rng = np.random.default_rng(int(sys.argv[1]))
 h = hashlib.sha256()
 for i in range(int(sys.argv[2])):
@@ -332,13 +368,14 @@ def second_interpreter(ctx, mon):
         href.update(hashes_ref.murmur3_32(b, sd & 0xFFFFFFFF).to_bytes(4, "little"))
     mine = h.hexdigest()
     mon.check(mine == href.hexdigest(), "digest==reference-digest", n=n, seed=seed)
-    for phs in ("12345", "random"):
+    for phs, first in (("12345", ""), ("random", ""), ("0", "uint8"), ("0", "uint16"), ("0", "bool_"), ("0", "int64")):
         env = dict(os.environ, PYTHONHASHSEED=phs)
-        p = subprocess.run([sys.executable, "-W", "ignore", "-c", DIGEST_SNIPPET, str(seed), str(n)], env=env,
+        p = subprocess.run([sys.executable, "-W", "ignore", "-c", DIGEST_SNIPPET, str(seed), str(n), first], env=env,
                            capture_output=True, text=True, timeout=600)
         got = p.stdout.strip().splitlines()[-1] if p.stdout.strip() else f"rc={p.returncode}: {p.stderr[-300:]}"
-        mon.check(got == mine, "same-digest-in-second-interpreter", pythonhashseed=phs, got=got, want=mine)
+        mon.check(got == mine, "same-digest-in-second-interpreter", pythonhashseed=phs, first_calls_of_the_process_pass_seed_as=first or "int", got=got, want=mine)
         mon.count("second_interpreter_runs")
+        mon.seen("first_call_seed_type", first or "int")
     mon.nontrivial()
     mon.end_case()
 
@@ -400,12 +437,17 @@ def run(ctx, mon):
         views = [(int(a), int(min(n - 1, a + ln))) for a in range(0, 17) for ln in (0, 1, 2, 3, 4, 5, 7, 8, 9, 15, 16, 17, 24, 31)]
         kv.append({"kernel_views": True, "buf": hx(buf), "views": views, "seed64": SEEDS64[i % len(SEEDS64)], "seed32": SEEDS32[i % len(SEEDS32)]})
     run_cases(ctx, mon, kv, run_kernel_views, time_bound=False)
+    otf = [{"on_the_fly": True, "len": n, "seed": sd, "stream": int(rng.integers(0, 2**62)), "count": 200 if n <= 5000 else 40}
+           for n in (8, 100, 1023, 1024, 1500, 4096, 70000) for sd in (0, int(rng.integers(0, 2**64, dtype=np.uint64)))]
+    run_cases(ctx, mon, otf, run_on_the_fly, time_bound=False)
     run_cases(ctx, mon, gen_steered(ctx), run_steered, time_bound=False)
     run_cases(ctx, mon, gen_cases(ctx), run_case)
 
 
 def replay(case, ctx, mon):
-    if "steered" in case:
+    if "on_the_fly" in case:
+        run_on_the_fly(case, ctx, mon)
+    elif "steered" in case:
         run_steered(case, ctx, mon)
     elif "kernel_views" in case:
         run_kernel_views(case, ctx, mon)
@@ -424,9 +466,13 @@ def floors(mon, ctx):
     mon.floor("tail lengths mod 4 (murmur3)", len(mon.classes["len_mod_4"]), 4)
     mon.floor("listed 64-bit seeds", len([x for x in mon.classes["seed64"] if x != "random"]), len(SEEDS64))
     mon.floor("inputs", mon.counters["inputs"], 2000)
-    mon.floor("second interpreter runs", mon.counters["second_interpreter_runs"], 2)
+    mon.floor("second interpreter runs", mon.counters["second_interpreter_runs"], 6)
+    mon.floor("temporary keys that reused the address of a dropped one", mon.counters["temporary_keys_that_reused_an_address"], 100)
     mon.floor("in-kernel slice windows", mon.counters["kernel_slice_windows"], 1000)
-    mon.floor("hashes of jitted views", mon.counters["kernel_views"], 1000)
+    if not mon.counters["kernel_view_cases_skipped(hashes_not_callable_from_jitted_code)"]:
+        mon.floor("hashes of jitted views", mon.counters["kernel_views"], 1000)
+    else:
+        mon.notes.append("the public hashes could not be called from jitted code on this tree: the in-kernel view comparison was skipped")
     mon.floor("steered inputs (internal state or output forced to a special value)", mon.counters["steered_inputs"], 3000)
     mon.floor("steered fasthash state classes (position x value)", len(mon.classes["steered_fh"]), 4 * len(SPECIAL64))
     mon.floor("steered murmur3 state classes (position x value)", len(mon.classes["steered_mm"]), 4 * len(SPECIAL32))
